@@ -55,6 +55,7 @@ class Monitor:
         self.col, self.case, self.ref, self.kind, self.network, self.wt = col, case, ref, kind, network, wt
         self.chains = {}      # (account, witness_type, change) -> set(index)
         self.mixed_seen = False
+        self.issued_ids = set()
         self.bulk_seen = False
         self.judged_ids = set()
         self.addresses = {}   # address -> (key_id)
@@ -77,6 +78,10 @@ class Monitor:
         """postcondition on one WalletKey"""
         col = self.col
         col.probe('key_postcondition')
+        if how.split('(')[0] in ('new_key', 'new_key_change', 'new_keys') and wk.key_id in self.issued_ids and self.kind != 'single':
+            self.viol('%s returned key %s (%s) that had already been issued: indices must be issued without repeats'
+                      % (how, wk.key_id, wk.path), wk.path, 'a new index')
+        self.issued_ids.add(wk.key_id)
         self.judged_ids.add(wk.key_id)
         wt = wk.witness_type or self.wt
         skip_addr = False
